@@ -556,11 +556,45 @@ theorem lines_whole (T : Tables) (L : Lib J) (d : Disp σ J) (laws : LibLaws L) 
     obtain ⟨_, w, r, hc, hp, hout⟩ := hl
     exact ⟨w, r, hc, hp, hout⟩
 
+/-- **senders_keep_order** — in every reachable state of any number of senders (any queues, any
+interleaving of acquire / partial writes / release): the frames completed so far are `doneBy` without the
+sender numbers, and for every sender what it has completely sent (in the order the peer got it), the
+frame it is writing and what it still has to send are, in this order, exactly the frames it set out
+to send — nothing lost, duplicated or overtaken -/
+theorem senders_keep_order (queue : Nat → List Bytes) (s : SockState) (hreach : SendReach (sockInit queue) s) :
+    s.done = s.doneBy.map Prod.snd ∧ ∀ i, sentBy s i ++ inFlight s i ++ s.queue i = queue i :=
+  orderInv_reach (fun _ => True) queue (fun _ _ _ => trivial) hreach
+
+/-- **replies_in_order_among_events** — the handler thread (sender 0) answering any byte stream in any
+segmentation, any other senders on the same connection: the frames of the handler thread reach the
+peer in the order of `serve` (so the replies are in request order, `one_reply_per_line`), however the
+events of the other threads are interleaved; once the handler thread has nothing left to send, the peer
+has got all of them -/
+theorem replies_in_order_among_events (T : Tables) (L : Lib J) (d : Disp σ J) (st : σ) (chunks : List Bytes)
+    (others : Nat → List (Triple J)) (s : SockState)
+    (hreach : SendReach (sockInit (fun i => if i = 0 then wire L (serve T L d [] st chunks).outs
+                                              else (others i).map (encodeFrame L))) s) :
+    sentBy s 0 ++ inFlight s 0 ++ s.queue 0 = wire L (serve T L d [] st chunks).outs
+    ∧ (s.queue 0 = [] → s.cur 0 = none → sentBy s 0 = wire L (serve T L d [] st chunks).outs) := by
+  have h := (senders_keep_order _ s hreach).2 0
+  simp only [↓reduceIte] at h
+  refine ⟨h, fun hq hc => ?_⟩
+  rw [← h, hq]
+  simp [inFlight, hc]
+
 /-- non-vacuity of the step relation: two senders, the second acquires while the first has not
 started; a state with the lock held and half a frame written is reachable -/
 example : ∃ s, SendReach (sockInit (fun i => if i = 0 then [[97, 10]] else if i = 1 then [[98, 99, 10]] else [])) s
     ∧ s.lock = some 1 ∧ s.out = [98] := by
   refine ⟨_, .step _ _ (.step _ _ .start (.acquire _ 1 [98, 99, 10] [] rfl rfl)) (.write _ 1 [] [98, 99, 10] 1 (by simp [upd])), rfl, rfl⟩
+
+/-- … and a state in which the second sender's frame has overtaken the first sender's: `doneBy` records who sent what -/
+example : ∃ s, SendReach (sockInit (fun i => if i = 0 then [[97, 10]] else if i = 1 then [[98, 10]] else [])) s
+    ∧ s.doneBy = [(1, [98, 10]), (0, [97, 10])] ∧ s.out = [98, 10, 97, 10] ∧ sentBy s 0 = [[97, 10]] := by
+  refine ⟨_, .step _ _ (.step _ _ (.step _ _ (.step _ _ (.step _ _ (.step _ _ .start
+    (.acquire _ 1 [98, 10] [] rfl rfl)) (.write _ 1 [] [98, 10] 2 (by simp [upd]))) (.release _ 1 [98, 10] (by simp [upd])))
+    (.acquire _ 0 [97, 10] [] rfl rfl)) (.write _ 0 [] [97, 10] 2 (by simp [upd]))) (.release _ 0 [97, 10] (by simp [upd])),
+    by simp [sockInit], by simp [sockInit], by simp [sentBy, sockInit]⟩
 
 end whole
 
